@@ -291,3 +291,110 @@ def mon_c06(run):
             if g in reported and not all_done:
                 bad.append("TASK_GRAPH_FINISHED reported for %s although a sink did not complete" % g)
     return bad
+
+
+def mon_c07(run, world):
+    """conditional branches in whole simulations: exactly one child of a completed conditional goes on, the others are
+    cancelled up to the join; with resolution at submission the resolved branch is the one that runs"""
+    bad = []
+    info = graph_info(run)
+    state = {}
+    released = {}
+    log = run["log"]
+    resolved = bool(world["flags"].get("resolve_conditionals_at_submission"))
+    for e in log:
+        if e[0] == "graph":
+            for t in e[1]["tasks"]:
+                state[t["name"]] = t["state"]
+            if resolved:
+                # every conditional that can be reached (non-zero probability) has exactly one child resolved to 1
+                for t in e[1]["tasks"]:
+                    if t["conditional"] and t["prob"] > 0:
+                        ps = [info[c]["prob"] for c in t["children"] if c in info]
+                        if ps and sorted(ps) != [0.0] * (len(ps) - 1) + [1.0]:
+                            bad.append("resolution at submission left conditional %s with child probabilities %s" % (t["name"], ps))
+        elif e[0] == "task" and e[5] != "ERR":
+            state[e[2]] = e[5]
+        elif e[0] == "notify":
+            t = e[1]
+            ti = info.get(t)
+            if ti is None or not ti["conditional"]:
+                continue
+            rel, canc = e[3], e[4]
+            kids = ti["children"]
+            live = [c for c in kids if info[c]["prob"] > 0 and state.get(c) != "CANCELLED"] if all(c in info for c in kids) else kids
+            if len(rel) > 1:
+                bad.append("conditional %s released %d children: %s" % (t, len(rel), rel))
+            if len(rel) == 1:
+                c = rel[0]
+                if c not in kids:
+                    bad.append("conditional %s released %s, not one of its children" % (t, c))
+                elif resolved and info[c]["prob"] != 1.0:
+                    bad.append("conditional %s released %s although submission resolved another branch" % (t, c))
+                elif c in canc:
+                    bad.append("conditional %s released and cancelled the same child %s" % (t, c))
+                for o in kids:
+                    if o != c and o not in canc and state.get(o) not in ("CANCELLED",):
+                        bad.append("conditional %s took %s but its sibling %s was not cancelled (state %s)" % (t, c, o, state.get(o)))
+            if len(rel) == 0 and live:
+                bad.append("conditional %s completed without releasing any of its runnable children %s" % (t, live))
+            for x in canc:
+                state[x] = "CANCELLED"
+    # a join whose taken branch completed must not have been cancelled by the untaken one
+    return bad
+
+
+def mon_c18(run, world, f36_out=None):
+    """the scheduling frontier as the policies saw it during whole simulations"""
+    bad = []
+    f36 = f36_out if f36_out is not None else []
+    info = graph_info(run)
+    state = {}
+    rel_time = {}
+    fin = set()
+    preempt = bool(world["flags"].get("preemption"))
+    for e in run["log"]:
+        k = e[0]
+        if k == "graph":
+            for t in e[1]["tasks"]:
+                state[t["name"]] = t["state"]
+        elif k == "task" and e[5] != "ERR":
+            state[e[2]] = e[5]
+            if e[1] == "release":
+                rel_time[e[2]] = e[6][0]
+            if e[1] == "finish":
+                fin.add(e[2])
+        elif k in ("tgcancel",):
+            for x in e[3]:
+                state[x] = "CANCELLED"
+        elif k == "notify":
+            for x in e[4]:
+                state[x] = "CANCELLED"
+        elif k == "offer":
+            now, lookahead, pre, retract, rtg, offered = e[1], e[2], e[3], e[4], e[5], e[6]
+            names = [o[0] for o in offered]
+            if len(set(names)) != len(names) and not pre:
+                bad.append("a task is offered twice at %s: %s" % (now, names))
+            for (n, stt) in offered:
+                if stt in ("COMPLETED", "CANCELLED", "EVICTED"):
+                    bad.append("%s task %s offered to the policy at %s" % (stt, n, now))
+                if stt == "SCHEDULED" and not retract:
+                    bad.append("SCHEDULED task %s offered at %s although retraction is off" % (n, now))
+                if stt == "RUNNING" and not pre:
+                    bad.append("RUNNING task %s offered at %s although preemption is off" % (n, now))
+                if stt == "VIRTUAL" and lookahead == 0 and not rtg and not retract:
+                    ti = info.get(n)
+                    if ti and ti["parents"]:
+                        done = [p for p in ti["parents"] if p in fin]
+                        ok = bool(done) if ti["terminal"] else len(done) == len(ti["parents"])
+                        # known finding F36: a parent that is SCHEDULED with a placement being retried has a completion
+                        # estimate in the past, and its child is offered although the parent has not started
+                        overdue = [p for p in ti["parents"] if p not in fin and state.get(p) == "SCHEDULED"]
+                        if not ok and overdue:
+                            f36.append("VIRTUAL task %s offered at %s while its parent %s is SCHEDULED but not started" % (n, now, overdue[0]))
+                        elif not ok:
+                            bad.append("VIRTUAL task %s offered at %s (no lookahead) before its predecessors completed" % (n, now))
+            for t, stt in state.items():
+                if stt == "RELEASED" and rel_time.get(t) is not None and rel_time[t] <= now and t not in names:
+                    bad.append("released task %s (released at %s) is missing from the offer at %s" % (t, rel_time[t], now))
+    return bad
